@@ -42,12 +42,19 @@ def run_history(seed, k, res):
     A = rng.normal(size=(m, n)); b = rng.normal(size=m); Q = rng.normal(size=(m, n)) * 0.3
     f = lambda x: A @ (x - x0) / spread - b + (Q @ ((x - x0) / spread) ** 2)
     xl, xu = -1e20 * np.ones(n), 1e20 * np.ones(n)
+    bounded = rng.random() < 0.3
+    if bounded:
+        # finite box around the base point: some stored steps fall outside it; the Model then reports (and the residuals are
+        # evaluated at) the clipped point, and all identities are with respect to those clipped points
+        xl = x0 - spread * rng.uniform(0.3, 3.0, size=n)
+        xu = x0 + spread * rng.uniform(0.3, 3.0, size=n)
     prec = bool(rng.random() < 0.7)
     M = Model(npt, x0.copy(), f(x0), xl, xu, [], 1, precondition=prec, do_logging=False)
+    at = (lambda x: M.as_absolute_coordinates(x))
     ngrow = int(rng.integers(1, npt)) if rng.random() < 0.35 else npt - 1
     for j in range(1, ngrow + 1):
         x = rng.normal(size=n) * spread
-        M.change_point(j, x, f(M.xbase + x), j + 1)
+        M.change_point(j, x, f(at(x)), j + 1)
     evc = npt + 1
     fitted = False
     ops = []
@@ -175,24 +182,24 @@ def run_history(seed, k, res):
                 j = M.npt()
                 x = M.xopt() + rng.normal(size=n) * spread
                 ops.append("grow")
-                M.change_point(j, x, f(M.xbase + x), evc)
+                M.change_point(j, x, f(at(x)), evc)
             elif rng.random() < 0.15:
                 # another sample at an existing point (noise averaging): the stored residual becomes the mean and the incumbent may move
                 j = int(rng.integers(M.npt()))
                 ops.append("resample(%d)" % j)
-                M.add_new_sample(j, f(M.xbase + M.points[j, :]) * rng.uniform(0.0, 2.0))
+                M.add_new_sample(j, f(at(M.points[j, :])) * rng.uniform(0.0, 2.0))
                 nrepl += 1
             elif rng.random() < 0.2:
                 j = int(rng.integers(M.npt()))
                 ops.append("re-evaluate(%d)" % j)
                 # same location, new residual (e.g. a re-evaluation of a noisy objective): may move the incumbent
-                M.change_point(j, M.points[j, :].copy(), f(M.xbase + M.points[j, :]) * rng.uniform(0.0, 1.5), evc)
+                M.change_point(j, M.points[j, :].copy(), f(at(M.points[j, :])) * rng.uniform(0.0, 1.5), evc)
                 nrepl += 1
             else:
                 j = int(rng.integers(M.npt()))
                 x = M.xopt() + rng.normal(size=n) * spread
                 ops.append("replace(%d)" % j)
-                M.change_point(j, x, f(M.xbase + x), evc)
+                M.change_point(j, x, f(at(x)), evc)
                 nrepl += 1
             # (the cached-factorisation flag itself is an internal identifier and is not judged: a stale cache shows in the
             #  Lagrange / interpolation identities checked right after, which are recomputed from the current points)
@@ -201,6 +208,8 @@ def run_history(seed, k, res):
                 if not check_lagrange("right after a replacement"):
                     return
     st["histories"] = st.get("histories", 0) + 1
+    if bounded:
+        st["bounded_histories"] = st.get("bounded_histories", 0) + 1
     st["operations"] = st.get("operations", 0) + len(ops)
     if nshift_off >= 1 and nrepl >= 1:
         res["nontrivial"].append("h%d" % k)
@@ -235,5 +244,5 @@ def finalize(agg):
     cov = dict(evaluations=int(st.get("histories", 0)), operations=int(st.get("operations", 0)), fits_checked=int(st.get("fits_checked", 0)),
                lagrange_checks=int(st.get("lagrange_checks", 0)), shift_checks=int(st.get("shift_checks", 0)),
                regimes={k[7:]: int(v) for k, v in st.items() if k.startswith("regime|")},
-               skipped_ill_conditioned=int(st.get("skipped_ill_conditioned", 0)), fits_reported_failed=int(st.get("fit_reported_failure", 0)))
+               bounded_histories=int(st.get("bounded_histories", 0)), skipped_ill_conditioned=int(st.get("skipped_ill_conditioned", 0)), fits_reported_failed=int(st.get("fit_reported_failure", 0)))
     return cov, reasons
